@@ -336,11 +336,8 @@ namespace smt
         else if (const auto at_expr = exprs.find(s_expr); at_expr != exprs.cend()) // the expression already exists..
             return at_expr->second;
         else
-        { // we need to create a new variable..
-            const auto ctr = new_at_most_one(ls);
-            ls.push_back(!ctr);
-            if (!new_clause(std::move(ls)))
-                return FALSE_lit;
+        { // exactly-one is the conjunction of at-most-one and at-least-one (the at-most-one literal is shared with the other requests for the same at-most-one, hence it cannot be strengthened)..
+            const auto ctr = new_conj({new_at_most_one(ls), new_disj(ls)});
             exprs.emplace(s_expr, ctr);
             return ctr;
         }
